@@ -185,6 +185,11 @@ StepForNext ==
                /\ env' = afterPost.sc /\ UNCHANGED out /\ Run
 \* C07: every argument is evaluated at the place of use and bound in a fresh scope of the component, the
 \* surrounding variables stay visible; the scope vanishes when the component ends
+\* An argument whose name is visible at the place of use with a value of another type: C07 asks for the argument to be
+\* bound, C04 for a name never to be silently retyped; no property says which gives way, so the outcome is unspecified
+\* ("unspec"). The family c07collide overrides this to "shadow" to compute what the page prints when the argument is
+\* bound, and accepts exactly: an error, or that output - never a render in which the argument was silently dropped.
+CollidePolicy == "unspec"
 RECURSIVE BindArgs(_, _, _)
 BindArgs(args, callerEnv, scope) ==
   IF args = <<>> THEN [t |-> "env", sc |-> <<scope>> \o callerEnv]
@@ -192,7 +197,7 @@ BindArgs(args, callerEnv, scope) ==
        IF Bad(v) THEN v
        ELSE IF args[1].key = "loop" THEN Unspec
        ELSE LET old == Lookup(callerEnv, args[1].key) IN
-            IF ~IsErr(old) /\ old.t # v.t THEN Unspec     \* an argument that collides with a visible name of another type
+            IF ~IsErr(old) /\ old.t # v.t /\ CollidePolicy # "shadow" THEN Unspec
             ELSE BindArgs(Tail(args), callerEnv, BindIn(scope, args[1].key, v))
 \* with two or more failing arguments the reported one is not fixed (C14 only asks for determinism)
 ArgsFail(args, sc) == Cardinality({i \in 1..Len(args) : Bad(Ev(args[i].ex, sc))})
